@@ -257,6 +257,7 @@ func vfStartFileSystem(r *vfRun, initial []byte) (*vfFileSystem, error) {
 		v.fs = newSfs(sim)
 		v.fs.addFile("/f", initial)
 		v.fs.parkData = sc.cfg("parkdata", 0) != 0
+		v.fs.parkAfter = sc.cfg("parkafter", 0) != 0
 		v.fs.eofStyle = int(sc.cfg("eofstyle", 0))
 		v.srv = vfStartServer(sim, 1, alloc, v.fs, int(sc.cfg("hopt", 1)), "", false, "", maxTx)
 		c2s, s2c = v.srv.c2s, v.srv.s2c
